@@ -409,3 +409,37 @@ def names_map(seed, abstract, blanks=True):
         k += 1
     out["zz"] = unknown
     return out
+
+
+# ---------------------------------------------------------------- what an earlier, larger plotfile leaves behind
+
+def add_stale_files(path, AP, cfg, seed):
+    """A directory that was written TWICE (the second, smaller plotfile is the one its headers describe) still holds files of the
+    first: in every level directory a Cell_D file that no box of the level header refers to (a well-formed FAB of another region
+    with other values), and a level directory beyond the finest level with a level header of its own.  None of it is part of the
+    plotfile; a tool that LISTS directories instead of following the headers picks it up."""
+    rng = np.random.default_rng(seed)
+    nd = AP["ndims"]
+    nf = len(AP["fields"])
+    nlev = len(AP["levels"])
+    for lv in range(nlev):
+        ldir = os.path.join(path, "Level_%d" % lv)
+        used = [fn for fn in os.listdir(ldir) if fn.startswith("Cell_D_")]
+        n = max(int(fn.split("_")[-1]) for fn in used) + 1 + int(seed % 2)
+        box = AP["levels"][lv]["boxes"][0]
+        with open(os.path.join(ldir, "Cell_D_%05d" % n), "wb") as f:
+            f.write(fab_header(box["lo"], box["hi"], nf))
+            f.write(rng.uniform(-9e5, 9e5, box_cells(box) * nf).tobytes())
+    ldir = os.path.join(path, "Level_%d" % nlev)
+    os.makedirs(ldir, exist_ok=True)
+    box = AP["levels"][-1]["boxes"][0]
+    lo = [2 * v for v in box["lo"]]
+    hi = [2 * v + 1 for v in box["hi"]]
+    with open(os.path.join(ldir, "Cell_D_00000"), "wb") as f:
+        f.write(fab_header(lo, hi, nf))
+        ncell = int(np.prod([h - l + 1 for l, h in zip(lo, hi)]))
+        f.write(rng.uniform(-9e5, 9e5, ncell * nf).tobytes())
+    z = ",".join("0" for _ in range(nd))
+    with open(os.path.join(ldir, "Cell_H"), "w") as c:
+        c.write("1\n1\n%d\n0\n(1 0\n((%s) (%s) (%s))\n)\n1\nFabOnDisk: Cell_D_00000 0\n\n" % (
+            nf, ",".join(map(str, lo)), ",".join(map(str, hi)), z))
